@@ -202,7 +202,7 @@ CLAIMS = {
              "be resolved and compared with the reference bit vector for every operand, size and shift distance. "
              "Iteration order: forward()/reverse() of the iterator base are proved to move to the NEXT set position "
              "(each step tests exactly the neighbouring position, continues only over a clear bit inside the set, stops "
-             "only at a set bit or the end marker) and operator++/-- of both iterator kinds step through them; every "
+             "only at a set bit or the end marker) and operator++/-- of both iterator kinds step through them (prefix forms return the stepped iterator, postfix forms a copy of *this taken before the step on every path); every "
              "begin()/cbegin()/rbegin()/crbegin() overload is executed symbolically against that contract: the candidates "
              "examined start at position 0 resp. size() - 1 on every path.",
         note="trusted base: clang front end, extractor, cv/lin.py + cv/bounds.py, the size model of std::vector<bool>, "
@@ -257,7 +257,7 @@ CLAIMS = {
              "attribute lookup order by dominance and guard (message attributes through the parent chain of the attribute "
              "object, own value before the parent's, before global ones), newest-first search, Logging's global add/remove "
              "forward all parameters to the container, add/remove pairing of scoped "
-             "attributes, use of the strftime() result.",
+             "attributes, use of the strftime() result; the LogMsg getters the renderer reads return one stored member each, unchanged (and the member their setter writes), the three time getters are computed from the one stored time point by truncating conversions only (a rounding conversion makes seconds and sub-second fields describe different instants).",
         note="trusts clang AST/CFG; iostream manipulators and strftime behave as documented; the field-kind table is "
              "frozen in the checker (a new field kind fails the check until the table is extended)",
         technique="static analysis: switch/enum exhaustiveness, who-reads-what table, CFG must-pass-through and guards"),
@@ -266,7 +266,7 @@ CLAIMS = {
         text="Path counting over the CFG of one iteration of the word loop of TextBlock::formatLine: the set of "
              "emission counts of the current token over all paths is {1} ({0} on the forced-break path), the token is "
              "only streamed/compared/measured (no buffering or reordering), the loop has no early exit; stream-chain "
-             "shape rule 'every line break is followed by the indentation', guard of the first-line indentation, "
+             "rule 'after every line break the next output on every path is the indentation' (a blank string member built as string( n, \' \'), or a helper that writes exactly that once on every path; padding of an empty string via setw() is reported unless the expression fixes the fill character to a blank), guard of the first-line indentation, "
              "tokenizer separators. Decides the no-loss/no-duplication/order and indentation clauses for all texts; "
              "the usage printer lays its key column out for exactly the arguments it prints (doPrint() arguments, shared with C18-R5); "
              "words are never merged (second ghost: the last output on the line was a word; every word is streamed with it at 0); "
@@ -284,7 +284,7 @@ CLAIMS = {
              "object must re-target its description printer - this last rule reports an open, recorded finding on "
              "Handler::setUsageParams, see known_findings.json); every call of the visibility predicate passes the current "
              "settings in their places (column-width pass == printing pass); default value, check, constraint and hidden "
-             "mark each depend on their own property only; the description text goes through the "
+             "mark each depend on their own property only; every display setting is switched by the argument / start flag named after it (UsageParams binders and setters touch the member their reader returns, shortOnly/longOnly values, Handler forwarders call the same-named UsageParams function, the hfUsage*/hfArg* start flags guard exactly their function); the description text goes through the "
              "word loop of TextBlock, whose no-word-lost rule (C17-R1) is run here as well. Layout is not decided.",
         note="trusts clang AST/CFG; TypedArgBase property getters report the configured properties",
         also=("engine A (cfg.py)",),
@@ -370,7 +370,7 @@ CLAIMS = {
              "ManagedThread constructor instantiation: decides the structural necessary conditions (every access to "
              "the shared pointer under the static mutex, one null-tested construction site, flag initialised before "
              "the thread starts, atomic flag set/cleared around the user function, isActive() reports that flag and consults "
-             "nothing else) for all schedules at once; it does "
+             "nothing else, the destructor joins on every path on which the handle is joinable - whatever the flag says - and never detaches) for all schedules at once; it does "
              "not execute any interleaving.",
         note="trusts clang's AST/CFG, the C++ rules for base/member initialisation order and the semantics of "
              "std::mutex/lock_guard/atomic",
